@@ -16,7 +16,7 @@ def rd(name):
 
 def profile():
     return opaque_profile(
-        types={'QXmppMessage': 'QXmppMessage', 'QXmppCarbonManagerV2': 'QXmppCarbonManagerV2', 'QXmppCarbonManager': 'QXmppCarbonManager'},
+        types={'QXmppConfiguration': 'qcfg', 'QXmppMessage': 'QXmppMessage', 'QXmppCarbonManagerV2': 'QXmppCarbonManagerV2', 'QXmppCarbonManager': 'QXmppCarbonManager'},
         class_types={'QXmppMessage', 'QXmppCarbonManagerV2', 'QXmppCarbonManager'},
         calls={
             'ctor:QXmppMessage()': ('fn', 'QXmppMessage_ctor'),
@@ -24,6 +24,11 @@ def profile():
             'QXmppMessage::setCarbonForwarded/1': ('fn', 'QXmppMessage_setCarbonForwarded'),
             # client()->configuration().jidBare(): pure getters of the configured account address
             '*::jidBare/0': ('const', 'gh_cfg_jidBare'),
+            # the configuration object itself (a change may bind it to a local reference) and the configured FULL JID
+            '*::configuration/0': ('const', '0'),
+            '*::jid/0': ('const', 'gh_cfg_jid'),
+            # attribute(name, default): the default is returned exactly when the attribute is absent (hasAttribute)
+            'qdom::attribute/2': ('fn', 'qdom_attribute_or'),
             '*::injectMessage/1': ('expr', 'ev_injectMessage({1})'),
             '*::messageSent/1': ('expr', 'ev_messageSent({1})'),
             '*::messageReceived/1': ('expr', 'ev_messageReceived({1})'),
@@ -32,7 +37,7 @@ def profile():
             'qnodelist::at/1': ('fn', 'qnodelist_at'), 'qnodelist::item/1': ('fn', 'qnodelist_at'),
             'qdom::toElement/0': ('arg', 0),
         },
-        pure_fns={'client', 'configuration', 'jidBare'},
+        pure_fns={'client', 'configuration', 'jidBare', 'jid'},
     )
 
 
